@@ -39,7 +39,7 @@ type Step struct {
 	Seed    uint64 `json:"seed,omitempty"`
 	Shuffle bool   `json:"shuffle,omitempty"` // mpt: deliver the answer in a drawn permutation
 	Dup     int    `json:"dup,omitempty"`     // mpt: duplicated nodes added to the answer
-	Wrong   []int  `json:"wrong,omitempty"`   // mpt: 1 altered byte, 2 node of another height's trie, 3 valid node nobody asked for, 4 truncated node, 5 serialised empty node
+	Wrong   []int  `json:"wrong,omitempty"`   // mpt: 1 altered byte, 2 node of another height's trie, 3 valid node nobody asked for, 4 truncated node, 5 serialised empty node, 6 requested node sent ONLY in a form with one child serialised inline (same hash)
 	Gap     bool   `json:"gap,omitempty"`     // headers: chunk that does not connect (must be rejected)
 }
 
@@ -81,7 +81,7 @@ func genStep(t *rapid.T) Step {
 			s.Dup = rapid.IntRange(1, 4).Draw(t, "dup")
 		}
 		if rapid.IntRange(0, 2).Draw(t, "haswrong") == 0 {
-			s.Wrong = rapid.SliceOfN(rapid.IntRange(1, 5), 1, 3).Draw(t, "wrong")
+			s.Wrong = rapid.SliceOfN(rapid.IntRange(1, 6), 1, 3).Draw(t, "wrong")
 		}
 		s.Gap = rapid.IntRange(0, 9).Draw(t, "gap") == 0
 	case "grow":
@@ -735,6 +735,24 @@ func (d *driver) feedMPT(st Step) error {
 				items = append(items, item{b: b[:len(b)-1-rnd.intn(min(3, len(b)-1))], wrong: 4, orig: h})
 			case 5: // the (valid) serialisation of an empty node: nothing that can be asked for
 				items = append(items, item{b: []byte{0x04}, wrong: 5})
+			case 6: // a node asked for, answered only in a non-canonical form: one child is serialised inline instead
+				// of by hash. The node's hash (taken over the canonical form) is the expected one, but accepting it
+				// would leave the inlined child unrequested and unstored.
+				for try := 0; try < 8; try++ {
+					k := rnd.intn(len(items))
+					h := hashOfNode(items[k].b)
+					if items[k].wrong != 0 || d.src.nodesP[h] == nil {
+						continue
+					}
+					if nb, ok := inlineChild(items[k].b, d.src.nodesP, rnd.intn(17)); ok {
+						for j := range items { // every copy of the node in this answer
+							if items[j].wrong == 0 && bytes.Equal(items[j].b, d.src.nodesP[h]) {
+								items[j] = item{b: bytes.Clone(nb), wrong: 6, orig: h}
+							}
+						}
+						break
+					}
+				}
 			}
 		}
 		if st.Shuffle {
@@ -752,7 +770,7 @@ func (d *driver) feedMPT(st Step) error {
 			d.stats.wrong++
 			d.o.Labelf("wrong-node:%d", it.wrong)
 		}
-		if it.wrong == 1 || it.wrong == 4 || it.wrong == 5 {
+		if it.wrong == 1 || it.wrong == 4 || it.wrong == 5 || it.wrong == 6 {
 			altered = true
 		}
 	}
@@ -794,6 +812,64 @@ func (d *driver) feedMPT(st Step) error {
 		}
 	}
 	return nil
+}
+
+// inlineChild rewrites the serialisation of a branch or extension node so that one of its by-hash children (the
+// first one at or after position `from` that the source knows) is serialised inline: type byte + payload of the child
+// instead of 0x03 + hash. ok is false when the node has no such child.
+func inlineChild(b []byte, nodes map[util.Uint256][]byte, from int) ([]byte, bool) {
+	if len(b) == 0 {
+		return nil, false
+	}
+	type ent struct{ off int }
+	var ents []ent
+	i := 1
+	switch b[0] {
+	case 0x00: // branch: 17 children
+		for c := 0; c < 17 && i < len(b); c++ {
+			switch b[i] {
+			case 0x03:
+				ents = append(ents, ent{i})
+				i += 33
+			case 0x04:
+				i++
+			default:
+				return nil, false
+			}
+		}
+	case 0x01: // extension: key, child
+		if len(b) < 2 || b[1] >= 0xfd {
+			return nil, false
+		}
+		i = 2 + int(b[1])
+		if i < len(b) && b[i] == 0x03 {
+			ents = append(ents, ent{i})
+		}
+	default:
+		return nil, false
+	}
+	for k := 0; k < len(ents); k++ {
+		e := ents[(from+k)%len(ents)]
+		if e.off+33 > len(b) {
+			continue
+		}
+		var h util.Uint256
+		copy(h[:], b[e.off+1:e.off+33])
+		// hashes are stored big-endian in node serialisations; the map is keyed by the value
+		child := nodes[h]
+		if child == nil {
+			hr := h.Reverse()
+			child = nodes[hr]
+		}
+		if child == nil {
+			continue
+		}
+		out := append([]byte{}, b[:e.off]...)
+		out = append(out, child...)
+		out = append(out, b[e.off+33:]...)
+		return out, true
+	}
+	return nil, false
 }
 
 func hashOfNode(b []byte) util.Uint256 {
